@@ -61,6 +61,10 @@ pub enum AdapterKind {
     DuplexViaStream,
     /// the same inner object wrapped through `SinkExt::in_span`
     DuplexViaSink,
+    /// a `#[trace]` function that returns a boxed future (`Box::pin(async move {..})`): the span
+    /// is created by the call, under the caller's local parent, and bound to the returned future,
+    /// which is polled later, possibly elsewhere (at most one per case: the span's name is fixed)
+    TracedBoxed,
 }
 
 #[derive(Clone, Copy, Debug, Serialize, Deserialize, PartialEq)]
@@ -80,7 +84,14 @@ pub enum Op {
     Noop,
     ChildOfLocal { np: u8, s: StrSeed },
     SetLocalParent { span: u16, probe: bool },
-    EnterLocal { np: u8, s: StrSeed, probe: bool },
+    EnterLocal {
+        np: u8,
+        s: StrSeed,
+        probe: bool,
+        /// tracing calls made by the closure passed to `with_property/ies` (only with np > 0)
+        #[serde(default)]
+        re: Vec<Mini>,
+    },
     CollectorStart { probe: bool },
     PopGuard {
         collect: bool,
@@ -330,7 +341,10 @@ fn mini(p: &Profile, depth: u32) -> BoxedStrategy<Mini> {
         (3, Just(Mini::CtxOfLocal).boxed()),
         (2, Just(Mini::Probe).boxed()),
     ];
-    if p.reentrant {
+    // calls whose effects the reference model does not follow inside a closure (instrumented
+    // functions with fixed names, whole traces, collector cycles): only where the oracle looks at
+    // panics alone
+    if p.reentrant && p.w[K::TraceFn as usize] > 0 {
         v.push((2, Just(Mini::TraceFn).boxed()));
         v.push((1, s.clone().prop_map(|s| Mini::RootAndDrop { s }).boxed()));
         v.push((1, Just(Mini::Flush).boxed()));
@@ -399,8 +413,8 @@ pub fn op_strategy(p: &Profile) -> BoxedStrategy<Op> {
     );
     add(
         K::EnterLocal,
-        (np.clone(), s.clone(), any::<bool>())
-            .prop_map(|(np, s, probe)| Op::EnterLocal { np, s, probe })
+        (np.clone(), s.clone(), any::<bool>(), re.clone())
+            .prop_map(|(np, s, probe, re)| Op::EnterLocal { np, s, probe, re })
             .boxed(),
     );
     add(K::CollectorStart, any::<bool>().prop_map(|probe| Op::CollectorStart { probe }).boxed());
@@ -553,7 +567,7 @@ fn template_strategy(p: &Profile, t: Template) -> BoxedStrategy<Program> {
             canc,
             proptest::collection::vec(
                 prop_oneof![
-                    5 => (0u8..3, strseed(p.str_classes)).prop_map(|(np, s)| Op::EnterLocal { np, s, probe: false }),
+                    5 => (0u8..3, strseed(p.str_classes)).prop_map(|(np, s)| Op::EnterLocal { np, s, probe: false, re: vec![] }),
                     4 => Just(Op::PopGuard { collect: true, early: false, unwind: false }),
                     2 => (0u8..3, strseed(p.str_classes)).prop_map(|(n, s)| Op::AddEvent { handle: None, n, s, re: vec![] }),
                     2 => (1u8..3, strseed(p.str_classes)).prop_map(|(n, s)| Op::AddProps { handle: None, n, s, re: vec![] }),
@@ -645,9 +659,9 @@ fn template_strategy(p: &Profile, t: Template) -> BoxedStrategy<Program> {
                     t0.push(Op::Child { parents: vec![40000, 0], np: 0, s: StrSeed { c: 0, l: 1 } });
                 }
                 t0.push(Op::SetLocalParent { span: 65535, probe: false });
-                t0.push(Op::EnterLocal { np: 0, s: StrSeed { c: 0, l: 1 }, probe: false });
+                t0.push(Op::EnterLocal { np: 0, s: StrSeed { c: 0, l: 1 }, probe: false, re: vec![] });
                 t0.push(Op::CtxOfLocal);
-                t0.push(Op::EnterLocal { np: 0, s: StrSeed { c: 0, l: 2 }, probe: false });
+                t0.push(Op::EnterLocal { np: 0, s: StrSeed { c: 0, l: 2 }, probe: false, re: vec![] });
                 t0.push(Op::CtxOfLocal);
                 t0.push(Op::CtxOfSpan { span: 65535 });
                 t0.push(Op::RootFromCtx { ctx: 65535, via_tp, s: StrSeed { c: 0, l: 3 } });
@@ -683,7 +697,7 @@ fn template_strategy(p: &Profile, t: Template) -> BoxedStrategy<Program> {
                 t0.extend(mid);
                 if local {
                     t0.push(Op::SetLocalParent { span: 65535, probe: false });
-                    t0.push(Op::EnterLocal { np: 0, s: StrSeed { c: 0, l: 1 }, probe: false });
+                    t0.push(Op::EnterLocal { np: 0, s: StrSeed { c: 0, l: 1 }, probe: false, re: vec![] });
                     t0.push(Op::PopGuard { collect: false, early: false, unwind: false });
                     t0.push(Op::PopGuard { collect: false, early: false, unwind: false });
                 }
@@ -779,12 +793,13 @@ fn template_strategy(p: &Profile, t: Template) -> BoxedStrategy<Program> {
             0u8..3,
             proptest::collection::vec(
                 prop_oneof![
-                    5 => (0u8..3, strseed(p.str_classes)).prop_map(|(np, s)| Op::EnterLocal { np, s, probe: false }),
+                    5 => (0u8..3, strseed(p.str_classes)).prop_map(|(np, s)| Op::EnterLocal { np, s, probe: false, re: vec![] }),
                     3 => Just(Op::PopGuard { collect: true, early: false, unwind: false }),
                     3 => (0u8..3, strseed(p.str_classes)).prop_map(|(n, s)| Op::AddEvent { handle: None, n, s, re: vec![] }),
                     4 => (1u8..3, strseed(p.str_classes)).prop_map(|(n, s)| Op::AddProps { handle: None, n, s, re: vec![] }),
                     1 => (0u8..2, strseed(p.str_classes)).prop_map(|(np, s)| Op::ChildOfLocal { np, s }),
                     1 => Just(Op::CtxOfLocal),
+                    2 => (0u16..=p.max_spin_us).prop_map(|us| Op::Spin { us }),
                 ],
                 1..9,
             ),
@@ -800,7 +815,7 @@ fn template_strategy(p: &Profile, t: Template) -> BoxedStrategy<Program> {
                     t0.push(Op::SetLocalParent { span: 0, probe: false });
                 }
                 for i in 0..open_before {
-                    t0.push(Op::EnterLocal { np: (i % 2) as u8, s: StrSeed { c: 0, l: 1 }, probe: false });
+                    t0.push(Op::EnterLocal { np: (i % 2) as u8, s: StrSeed { c: 0, l: 1 }, probe: false, re: vec![] });
                 }
                 t0.push(Op::Burst { n, kind });
                 t0.extend(during);
